@@ -145,6 +145,31 @@ theorem cholSolve_model_upper {n m : Nat} (R : Mat α n n) (B : Mat α n m) (h :
   rw [show (Matrix.of (triSolve false (Mat.transpose R) B)) = (Matrix.of (Mat.transpose R))⁻¹ * Matrix.of B from h1]
   exact cholSolve_upper (Matrix.of B) rfl
 
+/-! ## Inverse of a Cholesky operator (current code) -/
+
+theorem of_one {n : Nat} : (Matrix.of (Mat.one : Mat α n n) : Matrix (Fin n) (Fin n) α) = 1 := by
+  ext i j; simp [Mat.one, Matrix.one_apply]
+
+/-- lower root `L`: the root handed to `RootLinearOperator` is `B = (L⁻¹)ᵀ` and `B Bᵀ = (L Lᵀ)⁻¹`. -/
+theorem cholInverseRoot_lower {n : Nat} (L : Mat α n n) (h : IsLower L) (hd : ∀ i, L i i ≠ 0) :
+    (Matrix.of (cholInverseRoot false L) : Matrix (Fin n) (Fin n) α) * (Matrix.of (cholInverseRoot false L))ᵀ
+      = (Matrix.of L * (Matrix.of L)ᵀ)⁻¹ := by
+  have h1 := triSolve_lower L (Mat.one : Mat α n n) h hd
+  rw [of_one, Matrix.mul_one] at h1
+  have h2 : (Matrix.of (cholInverseRoot false L) : Matrix (Fin n) (Fin n) α) = ((Matrix.of L)⁻¹)ᵀ := by
+    rw [← h1]; rfl
+  rw [h2, Matrix.transpose_transpose, chol_inverse_orientation]
+
+/-- upper root `R`: the root is `B = R⁻¹` and `B Bᵀ = (RᵀR)⁻¹`. -/
+theorem cholInverseRoot_upper {n : Nat} (R : Mat α n n) (h : IsUpper R) (hd : ∀ i, R i i ≠ 0) :
+    (Matrix.of (cholInverseRoot true R) : Matrix (Fin n) (Fin n) α) * (Matrix.of (cholInverseRoot true R))ᵀ
+      = ((Matrix.of R)ᵀ * Matrix.of R)⁻¹ := by
+  have h1 := triSolve_upper R (Mat.one : Mat α n n) h hd
+  rw [of_one, Matrix.mul_one] at h1
+  have h2 : (Matrix.of (cholInverseRoot true R) : Matrix (Fin n) (Fin n) α) = (Matrix.of R)⁻¹ := by
+    rw [← h1]; rfl
+  rw [h2, chol_inverse_orientation_upper]
+
 /-! ## Diagonal -/
 
 theorem diagSolve_model {n m : Nat} (d : Fin n → α) (hd : ∀ i, d i ≠ 0) (B : Mat α n m) :
